@@ -29,7 +29,7 @@ def sh(cmd, cwd, timeout=900):
     return r.returncode, (r.stdout + r.stderr)
 
 
-def cmd_import(outdir, n, prop):
+def cmd_import(outdir, n, prop, tag='s'):
     patch = os.path.join(outdir, 'patch%s.diff' % n)
     demo = os.path.join(outdir, 'demo%s.py' % n)
     notes = os.path.join(outdir, 'notes%s.md' % n)
@@ -46,7 +46,7 @@ def cmd_import(outdir, n, prop):
     if not (tests_ok and rc_with != 0 and rc_without == 0):
         print('NOT CONFIRMED:\n', out_with[-800:], '\n---\n', out_without[-800:])
         return 1
-    name = '%s-s%s' % (prop, n)
+    name = '%s-%s%s' % (prop, tag, n)
     dst = os.path.join(VERIF, 'seeded', name)
     os.makedirs(dst, exist_ok=True)
     shutil.copy(patch, os.path.join(dst, 'patch.diff'))
@@ -94,7 +94,7 @@ def cmd_run(name, props, extra=''):
 def main():
     a = sys.argv[1:]
     if a[0] == 'import':
-        sys.exit(cmd_import(a[1], a[2], a[3]))
+        sys.exit(cmd_import(a[1], a[2], a[3], a[4] if len(a) > 4 else 's'))
     if a[0] == 'run':
         cmd_run(a[1], a[2:])
     if a[0] == 'runall':
